@@ -279,6 +279,10 @@ class Harness:
             class Owner(HasTraits):
                 d = Dict(CInt, Str)
 
+                def __len__(self):
+                    # collection-like model: falsy while its dict is empty
+                    return len(self.__dict__.get("d", ()))
+
                 def _d_items_changed(self, ev):
                     items.append((dict(ev.removed), dict(ev.added),
                                   dict(ev.changed)))
